@@ -144,9 +144,10 @@ type Op struct {
 	// consumer side (EReader): buffer sizes of successive Read calls (then 4096).
 	ReadBufs []int
 
-	NoYield bool            // the doubles of this op are not yield points (the call runs in one turn)
-	NoCopy  bool            // EBytes: hand the caller's slice over as it is (aliasing scenario)
-	Direct  minify.Minifier // EDirect: the package minifier (shared option struct) called directly
+	Mimetype []byte          // EMimetype: the (shared) mimetype slice
+	NoYield  bool            // the doubles of this op are not yield points (the call runs in one turn)
+	NoCopy   bool            // EBytes: hand the caller's slice over as it is (aliasing scenario)
+	Direct   minify.Minifier // EDirect: the package minifier (shared option struct) called directly
 
 	// HTTP
 	ContentType   string
@@ -223,6 +224,9 @@ func (op *Op) Exec(y *sim.Point, m *minify.M) {
 	switch op.Entry {
 	case EPlain:
 		op.Err = m.Minify(op.MT, op.W, op.reader())
+		op.Out = op.W.Buf
+	case nEntries + 1: // EMimetype
+		op.Err = m.MinifyMimetype(op.Mimetype, op.W, op.reader(), nil)
 		op.Out = op.W.Buf
 	case nEntries: // EDirect
 		op.Err = op.Direct.Minify(m, op.W, op.reader(), nil)
